@@ -290,6 +290,11 @@ inductive Op | initialize | initFailSent | initFailRefused | tools | toolsRetry 
   /-- Streamable: the server sends `roots/list`; while the roots provider is still working the listening stream is
       replaced (as `reopen`); the answer is posted after the replacement. -/
   | rootsReplace
+  /-- a `tools/list` the server answers with an error status (404 / 400 / 401 / 403 / 500 / 503, no retry configured):
+      the operation fails; nothing about the session changes -/
+  | toolsFail
+  /-- a notification the server answers with an error status -/
+  | notifyFail
   deriving DecidableEq, Repr
 
 structure St where
@@ -343,10 +348,14 @@ def emits (cfg : Cfg) (ps : List ReqPath) (c : Client) (st : St) (v : Nat) : Op 
     if st.initialized then ([], st) else
     -- refused = nothing sent and the handshake fails, provided the first request's builder lets the function block it
     if cfg.before && ((pathFor ps c (firstKind c)).map blocks).getD false then ([], st) else initOk c st v
-  | .tools => if st.initialized then ([(.request, st.issued)], st) else ([], st)
+  | .tools | .toolsFail => if st.initialized then ([(.request, st.issued)], st) else ([], st)
   | .toolsRetry => if st.initialized then ([(.request, st.issued), (.request, st.issued)], st) else ([], st)
   | .notify =>
     -- `SendRootsListChangedNotification` refuses to run before a successful handshake (/repo 3f7fc11)
+    match c with
+    | .other => ([], st)
+    | _ => if st.initialized then ([(.notification, st.issued)], st) else ([], st)
+  | .notifyFail =>
     match c with
     | .other => ([], st)
     | _ => if st.initialized then ([(.notification, st.issued)], st) else ([], st)
